@@ -38,18 +38,23 @@ MANIFEST = {
              "is on (unrestricted, even `*`), frequency, start, length, variants, NaN mask and every cell token; scalars and lists "
              "are not exported; `csv_selection_roundtrip` -- for any selection of frequencies and periods (span=, frequency_span=; any "
              "order, step or repetition) what comes back for each selected series is set_data of its own rows at the written "
-             "periods: the restriction to lo..hi, trimmed, for consecutive runs, and for any distinct periods the trimmed form of a "
-             "series with the original's row at every written period and NaN elsewhere. "
+             "periods: the restriction to lo..hi, trimmed, for consecutive runs, and for ANY periods (stepped, descending, repeated) the "
+             "final trimmed series has the original's row at every written period and a NaN row elsewhere (`csv_selection_rowAt`, "
+             "`trim_changes_no_row`); the written grid is rectangular for any mix of block lengths and variant counts "
+             "(`csv_grid_rectangular`). "
              "Dataslate: `slate_roundtrip_cells/_series/_absent` -- to_databox(from_databox(db, names, span)) binds every selected "
              "name to a series on the span whose cell (period i, variant v) is the input cell of column min(v, k-1) (NaN outside the "
              "series, NaN for absent names), changed only by a declared fallback (NaN cells) or overwrite (all cells); other "
              "frequencies are rejected; to_databox(trim=True) is the trimmed and to_databox(span='base') the base-column restriction of "
              "the full output; after any sequence of remove_periods_from_start/_end and add_periods_to_end (induction) a cell is the "
-             "converted value iff no operation removed its period, and the base periods are the declared ones still alive. Databox "
+             "converted value iff no operation removed its period (also as one statement with the final to_databox: "
+             "`slate_ops_then_output`), and the base periods are the declared ones still alive. Databox "
              "operations (rename, remove, keep, copy, overlay, underlay, clip, prepend, merge): every operation and every sequence "
              "(induction) leaves all entries outside the selected names identical and in order; the selected names become the "
              "abstract series op of the two inputs (overlay/underlay/prepend/clip) resp. satisfy the dictionary equations of "
-             "keep/remove/rename-to-fresh-names, and in a sequence a name ends up as the last operation selecting it left it. The model is tied to the code on "
+             "keep/remove/rename-to-fresh-names/rename-onto-an-existing-name/merge (`mergeSpec`); overlay/underlay/prepend apply exactly "
+             "when both items are series of the same known frequency, integer included; in a sequence a name ends up as the last "
+             "operation selecting it left it. The model is tied to the code on "
              "every run by exact comparison of the parsed CSV grid, the re-imported databox, dataslate arrays and period operations, "
              "and one-step databox operations (symbolic series terms evaluated with the real Series methods), plus independent "
              "oracles on the real objects that supply the replay."),
